@@ -45,10 +45,11 @@ SHAPES = {
     'csv-old-views':      {'layout': 'old', 'rules': 'csv', 'views': True},
     'csv-new':            {'layout': 'new', 'rules': 'csv'},
     'rules-old':          {'layout': 'old', 'rules': 'rules', 'output': True},
+    'csv-old-commented-key': {'layout': 'old', 'rules': 'csv', 'commented_key': True},
     'csv-old-nosettingsline-views-output': {'layout': 'old', 'rules': 'csv', 'views': True, 'output': True, 'bak': True},
 }
 COMMANDS = ['migrate', 'init', 'update']
-QUICK = [('csv-old', 'migrate'), ('csv-old-bak', 'init'), ('csv-old-output', 'update'), ('csv-new', 'migrate')]
+QUICK = [('csv-old', 'migrate'), ('csv-old-bak', 'init'), ('csv-old-output', 'update'), ('csv-new', 'migrate'), ('csv-old-commented-key', 'migrate')]
 
 
 def build(root, shape):
@@ -67,6 +68,8 @@ def build(root, shape):
     else:
         with open(os.path.join(cfg, 'merchant_categories.csv'), 'w') as f:
             f.write(CSV)
+    if sp.get('commented_key'):
+        s += '# merchants_file: config/merchants.rules   (not migrated yet)\n# views_file: config/views.rules\n'
     if sp.get('views'):
         s += 'views_file: config/views.rules\n'
         with open(os.path.join(cfg, 'views.rules'), 'w') as f:
